@@ -100,6 +100,7 @@ class Sched:
         self.trace = None          # optional list of readable events (replay / debugging)
         self.line_hits = 0
         self.stalls = 0
+        self.inst_steps = {}
 
     # ------------------------------------------------------------------ log
     def ev(self, *a):
@@ -250,6 +251,7 @@ class Sched:
             if nxt > self.now:
                 self.now = nxt
                 self.clock_jumps += 1
+                self.inst_steps = {}
                 self.ev("clock", round(self.now - EPOCH, 6))
         return self._decide(me, r, must_leave, kind)
 
@@ -278,8 +280,16 @@ class Sched:
             return ch
         return default
 
+    def dominant_thread(self):
+        """(name, steps) of the thread that took most scheduler steps since the virtual clock last moved"""
+        if not self.inst_steps:
+            return None
+        idx = max(self.inst_steps, key=lambda k: self.inst_steps[k])
+        return (self.threads[idx].name, self.inst_steps[idx])
+
     def _handoff(self, me, must_leave=False, kind="block"):
         self.steps += 1
+        self.inst_steps[me.idx] = self.inst_steps.get(me.idx, 0) + 1
         if self.steps > self.max_steps:
             self._fail(StepCap("step cap %d reached" % self.max_steps))
             nxt = self.threads[0]
